@@ -2461,10 +2461,15 @@ def check_history(ctx, case, stats, upto=None):
     live, sh = Live(), Shadow()
     pub = _public(case)
     changed = False
+    prev_scaled = None
     for i, st in enumerate(case['steps']):
         if upto is not None and i > upto:
             break
         d = st['do']
+        if d == 'sysboxset' and st.get('scale'):
+            # what the System holds BEFORE box_set(scale=True): needed for the derived bound of the read-back below
+            pc = sh.cell_of(st['sys'])
+            prev_scaled = (st['sys'], ([list(r) for r in pc[0]], list(pc[1])), [list(p) for p in sh.systems[st['sys']]['pos']])
         sh.apply(st)
         status, obs = live.step(st)
         stats['history_steps'] += 1
@@ -2476,6 +2481,21 @@ def check_history(ctx, case, stats, upto=None):
             return
         if d in ('boxvects', 'boxorigin', 'boxset', 'sysboxset', 'pbcset', 'pbcedit', 'posedit', 'posset'):
             changed = True
+            continue
+        if d == 'state' and st.get('tolpos') and prev_scaled is not None and prev_scaled[0] == st['sys'] and isinstance(obs, dict):
+            # box_set(scale=True) keeps the RELATIVE positions: the Cartesian positions read back must be the exact rescaling
+            # of the old ones (kept by `Shadow`) within the derived rounding bound - decided on the real code alone, so that
+            # a restructured box_set the translator refuses still yields a concrete input
+            _, (pv, po), ppos = prev_scaled
+            nv, no = sh.cell_of(st['sys'])
+            want = [Fraction(x) for p_ in sh.systems[st['sys']]['pos'] for x in p_]
+            tol = rescale_tolerance(pv, po, ppos, nv, no, want)
+            got = obs['pos']
+            if len(got) != len(want) or not all(abs(Fraction(float(x)) - m) <= tol for x, m in zip(got, want)):
+                _viol(ctx, 'history:scaled-positions', hist + f"System #{st['sys']}.box_set(vects={nv}, origin={no}, scale=True) on positions "
+                      f'{ppos} under the cell {pv} (origin {po}): atoms.pos reads {got}, the relative coordinates are kept by '
+                      f'{[float(x) for x in want]}', rep)
+            prev_scaled = None
             continue
         if d in ('newbox', 'newsys', 'state'):
             continue
